@@ -273,6 +273,7 @@ def run(ctx):
     _run_rules(ctx)
     from .. import boundaries
     boundaries.check(ctx, 'C18.RB', 'C18')
+    boundaries.check_guards(ctx, 'C18.RG', 'C18')
     boundaries.check_calls(ctx, 'C18.RC', 'C18')
     from . import C14
     C14.r7_no_loss(ctx, 'C18.R8', C14.REFUSAL_SLOT + C14.ACK_SLOTS, floor=3)
